@@ -34,7 +34,10 @@ func runCase(conv func([]byte, []*goctags.Entry) ([]index.DocumentSection, []*zo
 	}
 	in = fmt.Sprintf("conv %s %s", gen.Hex(content), entries)
 
-	secs, syms, err := conv(content, tags)
+	secs, syms, err, pan := safeConv(conv, content, tags)
+	if pan != "" {
+		return in, "convert-panic"
+	}
 	if err != nil {
 		return in, "convert-error"
 	}
@@ -68,6 +71,17 @@ func runCase(conv func([]byte, []*goctags.Entry) ([]index.DocumentSection, []*zo
 		}
 	}
 	return in, fmt.Sprintf("secs=%s syms=%s add=%s", join(ss), join(ts), add)
+}
+
+// safeConv runs Convert and turns a Go panic into a value ("never failing the build" is part of the property).
+func safeConv(conv func([]byte, []*goctags.Entry) ([]index.DocumentSection, []*zoekt.Symbol, error), content []byte, tags []*goctags.Entry) (secs []index.DocumentSection, syms []*zoekt.Symbol, err error, pan string) {
+	defer func() {
+		if r := recover(); r != nil {
+			pan = fmt.Sprint(r)
+		}
+	}()
+	secs, syms, err = conv(content, tags)
+	return
 }
 
 var (
@@ -156,6 +170,11 @@ func main() {
 		if strings.HasSuffix(impl, "add=err") {
 			class = "rejected-by-add(invalid-utf8-name)"
 		}
-		w.Emit(gen.Case{In: in, Impl: impl, Class: class, Nontrivial: class == "placed" && len(es) >= 2})
+		c := gen.Case{In: in, Impl: impl, Class: class, Nontrivial: class == "placed" && len(es) >= 2}
+		if impl == "convert-panic" || impl == "convert-error" {
+			// Convert must drop what it cannot place, never fail: a property violation whatever the model says
+			c.Go, c.Key, c.Class = "Convert failed ("+impl+") instead of dropping the entry", impl, impl
+		}
+		w.Emit(c)
 	}
 }
